@@ -290,6 +290,25 @@ pub fn edges_for(prop: Prop, tier: Tier, r: &dyn Runner, st: &St) -> Vec<Edge> {
         Prop::C07 => { forgets(r, tier, st, &mut v); movers(&mut v); }
         Prop::C13 => { handles(r, tier, st, &mut v); movers(&mut v); }
         Prop::C18 => { capacity(r, tier, st, bounds(prop, tier).lmax, &mut v); elementwise(r, tier, st, &mut v); ranges(r, tier, st, true, &mut v); clones(r, tier, st, &mut v); }
+        Prop::C06 => {
+            elementwise(r, tier, st, &mut v); ranges(r, tier, st, true, &mut v); clones(r, tier, st, &mut v);
+            // a splice that exceeds a fixed capacity panics by contract; a second (injected) panic while it unwinds would abort the
+            // process by Rust's own rules, which says nothing about the vector: such edges get no fault enumeration
+            if let Some(cap) = r.fixed_cap() {
+                let len = st.len as usize;
+                v.retain(|e| match e { Edge::Splice { a, b, rn, .. } if ix(*a) <= ix(*b) && ix(*b) <= len => len - (ix(*b) - ix(*a)) + *rn as usize <= cap, _ => true });
+            }
+            // replacement iterators whose len() lies by -2..=+2 (only where storage has guard zones)
+            if !matches!(r.backend(), crate::caps::BK::Stack | crate::caps::BK::StackN) {
+                let len = st.len as usize;
+                for a in 0..=len { for b in a..=len { for rn in 0..=3u8 { for lie in [-2i8, -1, 1, 2] { for api in [Api::Erased, Api::Typed] {
+                    for pat in [Pat::none(), Pat { n: 1, bits: 1 }] {
+                        v.push(Edge::Splice { api, a: a as u8, b: b as u8, form: Form::Excl, pat, sink: Sink::Drop, rn, rsrc: RSrc::W, lie });
+                    }
+                    if api == Api::Erased && r.elem_size() != 0 { v.push(Edge::Splice { api, a: a as u8, b: b as u8, form: Form::Excl, pat: Pat::none(), sink: Sink::Drop, rn, rsrc: RSrc::R, lie }); }
+                } } } } }
+            }
+        }
         Prop::C10 => { capacity(r, tier, st, bounds(prop, tier).lmax, &mut v); elementwise(r, tier, st, &mut v); }
         Prop::C04 => { wrong_types(r, tier, st, &mut v); movers(&mut v); }
         Prop::C03 | Prop::C05 => { elementwise(r, tier, st, &mut v); ranges(r, tier, st, true, &mut v); clones(r, tier, st, &mut v); lazies(r, tier, st, &mut v); }
